@@ -1287,6 +1287,9 @@ def mode_variable_to_nested_loop(fnode):
             return None
         if any(isinstance(n, ast.Continue) for st in tbody for n in walk_no_nested(st)):
             return None
+        # the unpacked names are re-read from M in every iteration of the mode: T must not re-bind them (it may call their methods)
+        if names is not None and any(isinstance(n, ast.Name) and n.id in names and isinstance(n.ctx, (ast.Store, ast.Del)) for st in tbody for n in ast.walk(st)):
+            return None
 
         hoisted = []
 
